@@ -612,4 +612,143 @@ example : ∃ c, wf c = true ∧ c.own = ⟨.user .F, .user .F⟩ ∧ c.ancestor
      hist := ⟨true, true, true, [], ["a"]⟩ },
    by decide, rfl, by decide, by decide⟩
 
+/-! ### T3: the generated text -/
+
+section Script
+open Attrs.C03.IR
+
+theorem andChain_fields (fs : List Field) :
+    andChain (fs.map (fun f => (Res.ofOutcome (outcome f), tag f))) = chain fs := by
+  induction fs with
+  | nil => rfl
+  | cons f rest ih =>
+    cases rest with
+    | nil => simp [andChain, chain]
+    | cons g rest =>
+      have ht : (Res.ofOutcome (outcome f)).isTruthy = (outcome f).isTruthy := by
+        cases outcome f <;> rfl
+      simp only [List.map_cons] at ih ⊢
+      simp only [andChain, chain, ht, ih]
+
+theorem find_helper (l : List Field) (n : String) (h : ∃ g ∈ l, g.name = n) :
+    (l.map (fun g => (g.name, Binding.eqKey g.name))).find? (·.1 == n) = some (n, Binding.eqKey n) := by
+  induction l with
+  | nil => obtain ⟨g, hg, _⟩ := h; cases hg
+  | cons a rest ih =>
+    by_cases ha : a.name = n
+    · simp [List.find?, ha]
+    · obtain ⟨g, hg, hgn⟩ := h
+      have hg' : g ∈ rest := by
+        rcases List.mem_cons.1 hg with e | e
+        · exact absurd (e ▸ hgn) ha
+        · exact e
+      have hb : (a.name == n) = false := by simpa using ha
+      simp only [List.map_cons, List.find?, hb]
+      exact ih ⟨g, hg', hgn⟩
+
+/-- one emitted line evaluates to the comparison the model's chain performs for that field -/
+theorem evalCmp_genCmp (fields : List Field) (env : Env) (f : Field)
+    (hf : f ∈ fields.filter participates) (henv : env f.name = some f) :
+    evalCmp (genEq fields) env (genCmp f) = (Res.ofOutcome (outcome f), tag f) := by
+  by_cases hk : hasKey f = true
+  · have hh : lookupHelper (genEq fields) f.name = .eqKey f.name := by
+      simp only [lookupHelper, genEq]
+      rw [find_helper _ f.name ⟨f, List.mem_filter.2 ⟨hf, hk⟩, rfl⟩]
+    simp [evalCmp, genCmp, hk, hh, henv, outcome, tag]
+  · have hk' : hasKey f = false := by simpa using hk
+    simp [evalCmp, genCmp, hk', henv, outcome, tag]
+
+/-- **C03_script_correct** (compiler correctness of the model generator): for every field list, every
+    operand environment that supplies the fields' values and operands of the same class or not, executing the
+    script `genEq fields` — class guard, then `return True` or the `and` chain of the emitted comparison lines
+    with their key helpers as bound — yields exactly what the model's generated `__eq__` does: the chain over
+    the eq-participating fields, or NotImplemented without comparing anything. -/
+theorem C03_script_correct (fields : List Field) (env : Env) (same : Bool)
+    (henv : ∀ f ∈ fields, env f.name = some f) :
+    execEq (genEq fields) env same = if same then chain (fields.filter participates) else (.NI, []) := by
+  cases same with
+  | false => simp [execEq, genEq, execStmts]
+  | true =>
+    by_cases he : (fields.filter participates).isEmpty = true
+    · have hnil : fields.filter participates = [] := by simpa using he
+      simp [execEq, genEq, execStmts, hnil, chain]
+    · have he' : (fields.filter participates).isEmpty = false := by simpa using he
+      have hmap : (fields.filter participates).map (fun f => evalCmp (genEq fields) env (genCmp f))
+          = (fields.filter participates).map (fun f => (Res.ofOutcome (outcome f), tag f)) := by
+        apply List.map_congr_left
+        intro f hf
+        exact evalCmp_genCmp fields env f hf (henv f (List.mem_filter.1 hf).1)
+      have hgen : (genEq fields).body = [.classGuard, .returnAnd ((fields.filter participates).map genCmp)] := by
+        simp [genEq, he']
+      have hp : ((genEq fields).params == ["self", "other"]) = true := rfl
+      simp only [execEq, hp, hgen, execStmts, if_true, List.map_map]
+      show andChain ((fields.filter participates).map (fun f => evalCmp (genEq fields) env (genCmp f))) = _
+      rw [hmap, andChain_fields]
+
+/-- distinct field names: looking a field's own name up in the field list finds that field -/
+theorem envOf_self (fields : List Field) (hnd : (fields.map (·.name)).Nodup) :
+    ∀ f ∈ fields, envOf fields f.name = some f := by
+  induction fields with
+  | nil => intro f hf; cases hf
+  | cons a rest ih =>
+    intro f hf
+    simp only [List.map_cons, List.nodup_cons] at hnd
+    rcases List.mem_cons.1 hf with e | e
+    · subst e; simp [envOf, List.find?]
+    · have hne : a.name ≠ f.name := by
+        intro h
+        exact hnd.1 (h ▸ List.mem_map.2 ⟨f, e, rfl⟩)
+      have := ih hnd.2 f e
+      have hb : (a.name == f.name) = false := by simpa using hne
+      simp only [envOf] at this ⊢
+      simp only [List.find?, hb, this]
+
+theorem execNe_genNe (r : Res) : execNe genNe r = derive r := by
+  cases r <;> rfl
+
+/-- the model's round, written as "what `__eq__` does, then the helper, then Python's dispatch" -/
+theorem roundW_roundOfEq (ch : List Field → Res × List String) (c : Case) (hg : generates c = true) :
+    roundW ch c = roundOfEq (eqMethodW ch c) derive c := by
+  simp only [roundW, roundOfEq, eqOpW, neOpW, neMethodW_negation ch c hg]
+  generalize eqMethodW ch c = e
+  rcases e with ⟨v, t⟩
+  cases v <;> rfl
+
+/-- **C03_script_transfer**: if the scripts parsed from a class's real source ARE the model's scripts (the T3
+    agreement checked for every sampled class), then every comparison that text performs — any outcomes of the
+    fields' comparisons, any right operand, any class facts around it — is the model's round, to which all the
+    ∀-operand theorems above apply. -/
+theorem C03_script_transfer (sc : Script.Case) (o : Script.Obs) (hag : Script.model sc = o)
+    (k : Case) (hg : generates k = true) (hsame : genEq k.fields = genEq sc.fields)
+    (hnd : (k.fields.map (·.name)).Nodup) :
+    Script.scriptRound o k = round k := by
+  subst hag
+  have he : execEq (genEq sc.fields) (envOf k.fields) (sameClass k.rhs) = eqMethodW chain k := by
+    rw [← hsame, C03_script_correct k.fields (envOf k.fields) (sameClass k.rhs) (envOf_self k.fields hnd)]
+    simp [eqMethodW, lookupEq_gen k hg]
+  have hne : (fun r => if (Script.model sc).neInstalled then execNe (Script.model sc).ne r else Res.exc) = derive := by
+    funext r
+    simp [Script.model, execNe_genNe]
+  simp only [Script.scriptRound, round, roundW_roundOfEq chain k hg]
+  rw [show (Script.model sc).eq = genEq sc.fields from rfl, he, hne]
+
+/-- non-vacuity: a keyed and a plain field; the emitted text, and the script run on unequal keys -/
+example :
+    let fs : List Field :=
+      [{ name := "a", cmp := .unset, eq := .key, raw := .T, keyed := .F, sameObj := false, hash := .unset,
+         hashDiffers := false, order := .key, orderKeyed := .T, fault := .none },
+       { name := "b", cmp := .unset, eq := .unset, raw := .T, keyed := .F, sameObj := false, hash := .unset,
+         hashDiffers := false, order := .unset, orderKeyed := .T, fault := .none },
+       { name := "c", cmp := .f, eq := .unset, raw := .F, keyed := .F, sameObj := false, hash := .unset,
+         hashDiffers := false, order := .unset, orderKeyed := .T, fault := .none }]
+    genText "__attr_key_" fs =
+      ["def __eq__(self, other):", "    if other.__class__ is not self.__class__:",
+       "        return NotImplemented", "    return  (",
+       "        __attr_key_a(self.a) == __attr_key_a(other.a) and", "        self.b == other.b", "    )"] ∧
+    execEq (genEq fs) (envOf fs) true = (.F, ["a:key"]) ∧
+    execEq (genEq fs) (envOf fs) false = (.NI, []) := by decide
+
+end Script
+
+
 end Attrs.C03
